@@ -114,7 +114,7 @@ func rtUnregRace(c *Ctx, n int) {
 			}
 			answer := ret.Load()
 			answeredAt := time.Unix(0, retAt.Load())
-			close(gate) // the callback goroutine goes on and drains its queue
+			close(gate)                       // the callback goroutine goes on and drains its queue
 			time.Sleep(50 * time.Millisecond) // the drain of at most 3 queued versions through two trivial callbacks
 			mu.Lock()
 			late := 0
